@@ -371,3 +371,40 @@ def rule_dim_dirty(ctx):
             ctx.holds("DIMDIRTY", key, f.where(), "%d change(s) of a dimension's name/identity: NC_HDIRTY set on every non-failing path" % len(a.changes), nontrivial=True)
     ctx.floor("DIMDIRTY", 2, n, "(stores to a dimension's name or to a slot of the dimension array in the public SD functions)")
     return n
+
+
+def rule_gr_cache_threshold(ctx):
+    """CACHETHRESH (C10): GRsetattr keeps the new value of a replaced attribute in memory (to be written at GRend) unless it is larger
+    than the cache threshold, in which case it is written through at once.  GRgetattr discards its in-memory copy after a read
+    when the attribute is 'too large to keep'.  The two tests must draw the line at the same place: if GRgetattr discards a value
+    that GRsetattr only cached, the one copy of the new value is gone — later reads and GRend see the old value."""
+    from .codec import ast_walk, ast_calls
+    prog = ctx.prog
+    fs, fg = prog.func("GRsetattr"), prog.func("GRgetattr")
+    key = "CACHETHRESH:GRsetattr/GRgetattr"
+    if fs is None or fg is None:
+        ctx.unrecognised("CACHETHRESH", key, "-", "GRsetattr / GRgetattr not found")
+        return 0
+
+    def thresh_ifs(f):
+        out = []
+
+        def vis(nn, st):
+            if nn[0] == "if":
+                c = strip(nn[1])
+                if kind(c) == "bin" and c[1] in (">", ">=", "<", "<=") and any(y[0] == "mem" and y[2] == "attr_cache" for y in walk(c[3], True)):
+                    out.append((c[1], nn))
+            return True
+        ast_walk(f.raw.get("ast"), vis)
+        return out
+    through = [op for op, nn in thresh_ifs(fs) if any(c[1] in ("VSattach", "VSwrite") for c in ast_calls(nn[2]))]
+    discard = [op for op, nn in thresh_ifs(fg) if any(c[1] in ("free", "HDfreenclear") or True for c in ast_calls(nn[2])) and not any(c[1] in ("VSattach", "VSread", "malloc") for c in ast_calls(nn[2]))]
+    if not through or not discard:
+        ctx.unrecognised("CACHETHRESH", key, fs.where(), "threshold tests not found (write-through %s, discard %s)" % (through, discard))
+        return 0
+    if set(discard) <= set(through):
+        ctx.holds("CACHETHRESH", key, fg.where(), "both draw the line with `size %s attr_cache`" % through[0], nontrivial=True)
+    else:
+        ctx.violated("CACHETHRESH", key, fg.where(), "GRgetattr discards its copy when `size %s attr_cache`, GRsetattr writes a replaced value through only when `size %s attr_cache`: a value "
+                     "of exactly the threshold size is cached by the one and thrown away by the other" % (discard[0], through[0]))
+    return 1
